@@ -1,0 +1,86 @@
+//go:build verif
+
+package privval
+
+// Contracts for the deductive checks in /verif (read by /verif/govc; comment-only, no code).
+
+//@ import types github.com/tendermint/tendermint/types
+//@ import tempfile github.com/tendermint/tendermint/libs/tempfile
+//@ import tmjson github.com/tendermint/tendermint/libs/json
+
+// The sign state as it is ON DISK (ghost): written only by FilePVLastSignState.Save, at the moment the atomic file
+// replacement returned without error (Save panics otherwise).
+//@ ghost var pH int64
+//@ ghost var pR int
+//@ ghost var pS int
+//@ ghost var pSig int
+//@ ghost var pSB int
+
+// hrsLess / hrsEq: lexicographic order on (height, round, step).
+//@ spec func hrsLess(h1 int64, r1 int32, s1 int8, h2 int64, r2 int32, s2 int8) bool = h1 < h2 || (h1 == h2 && (r1 < r2 || (r1 == r2 && s1 < s2)))
+// sameButTimestamp(a, b): sign bytes a and b differ at most in their timestamp (ASSUMED of checkVotesOnlyDifferByTimestamp).
+//@ spec func sameButTimestamp(a []byte, b []byte) bool
+
+// CheckHRS is exactly its decision table: an error iff the request regresses, or repeats the last HRS without sign
+// bytes; true iff it repeats the last HRS for which sign bytes are stored.
+//@ func FilePVLastSignState.CheckHRS
+//@   assigns nothing
+//@   ensures err: result1 != nil <==> (hrsLess(height, round, step, lss.Height, lss.Round, lss.Step) || (height == lss.Height && round == lss.Round && step == lss.Step && lss.SignBytes == nil))
+//@   ensures same: result0 <==> (height == lss.Height && round == lss.Round && step == lss.Step && lss.SignBytes != nil)
+//@   ensures excl: !(result0 && result1 != nil)
+
+// ASSUMED: JSON encoding of the sign state and the atomic file replacement do not touch the validator's memory.
+//@ extern tmjson.MarshalIndent
+//@   assigns nothing
+//@ extern tempfile.WriteFileAtomic
+//@   assigns nothing
+
+// Save: returning normally means the file now carries exactly the in-memory sign state.
+//@ func FilePVLastSignState.Save
+//@   assigns pH, pR, pS, pSig, pSB
+//@   sets pH = lss.Height when true
+//@   sets pR = lss.Round when true
+//@   sets pS = lss.Step when true
+//@   sets pSig = lss.Signature when true
+//@   sets pSB = lss.SignBytes when true
+//@   atcall WriteFileAtomic path: arg0 == lss.filePath && lss.filePath != ""
+
+//@ func FilePV.saveSigned
+//@   assigns pv.LastSignState.Height, pv.LastSignState.Round, pv.LastSignState.Step, pv.LastSignState.Signature, pv.LastSignState.SignBytes, pH, pR, pS, pSig, pSB
+//@   ensures mem: pv.LastSignState.Height == height && pv.LastSignState.Round == round && pv.LastSignState.Step == step && pv.LastSignState.Signature == sig && pv.LastSignState.SignBytes == signBytes
+//@   ensures disk: pH == height && pR == round && pS == step && pSig == sig && pSB == signBytes
+
+//@ func voteToStep
+//@   assigns nothing
+//@   ensures def: (vote.Type == 1 ==> result == 2) && (vote.Type == 2 ==> result == 3) && (vote.Type == 1 || vote.Type == 2)
+
+// ASSUMED (trusted): decoding two canonical votes and comparing them with equal timestamps.
+//@ func checkVotesOnlyDifferByTimestamp
+//@   trusted
+//@   assigns nothing
+//@   ensures def: result1 ==> sameButTimestamp(lastSignBytes, newSignBytes)
+//@ func checkProposalsOnlyDifferByTimestamp
+//@   trusted
+//@   assigns nothing
+//@   ensures def: result1 ==> sameButTimestamp(lastSignBytes, newSignBytes)
+
+// signVote releases a signature (returns nil) only in one of two ways:
+//  fresh: the request is strictly later than the last signed HRS, and at return memory AND disk carry exactly
+//         (height, round, step, this signature, these sign bytes);
+//  reuse: the request repeats the last HRS, the released signature is the stored one, and the sign bytes are the stored
+//         ones or differ only in the timestamp; nothing is written.
+// On an error nothing changes at all (message, memory, disk).
+//@ func FilePV.signVote
+//@   requires disk: pH == pv.LastSignState.Height && pR == pv.LastSignState.Round && pS == pv.LastSignState.Step && pSig == pv.LastSignState.Signature && pSB == pv.LastSignState.SignBytes
+//@   assigns vote.Signature, vote.Timestamp, pv.LastSignState.Height, pv.LastSignState.Round, pv.LastSignState.Step, pv.LastSignState.Signature, pv.LastSignState.SignBytes, pH, pR, pS, pSig, pSB
+//@   ensures released: result == nil ==> (
+//@     | (hrsLess(old(pv.LastSignState.Height), old(pv.LastSignState.Round), old(pv.LastSignState.Step), vote.Height, vote.Round, ite(vote.Type == 1, 2, 3)) &&
+//@     |  pv.LastSignState.Height == vote.Height && pv.LastSignState.Round == vote.Round && pv.LastSignState.Step == ite(vote.Type == 1, 2, 3) &&
+//@     |  pv.LastSignState.Signature == vote.Signature && pH == vote.Height && pR == vote.Round && pS == ite(vote.Type == 1, 2, 3) && pSig == vote.Signature && pSB == pv.LastSignState.SignBytes) ||
+//@     | (old(pv.LastSignState.Height) == vote.Height && old(pv.LastSignState.Round) == vote.Round && old(pv.LastSignState.Step) == ite(vote.Type == 1, 2, 3) &&
+//@     |  vote.Signature == old(pv.LastSignState.Signature) && pv.LastSignState.SignBytes == old(pv.LastSignState.SignBytes) && pSB == old(pSB) && pSig == old(pSig) &&
+//@     |  pH == old(pH) && pR == old(pR) && pS == old(pS)))
+//@   ensures refused: result != nil ==> (vote.Signature == old(vote.Signature) && pv.LastSignState.Height == old(pv.LastSignState.Height) && pv.LastSignState.Round == old(pv.LastSignState.Round) &&
+//@     | pv.LastSignState.Step == old(pv.LastSignState.Step) && pv.LastSignState.Signature == old(pv.LastSignState.Signature) && pv.LastSignState.SignBytes == old(pv.LastSignState.SignBytes) &&
+//@     | pH == old(pH) && pR == old(pR) && pS == old(pS) && pSig == old(pSig) && pSB == old(pSB))
+//@   ensures disk: pH == pv.LastSignState.Height && pR == pv.LastSignState.Round && pS == pv.LastSignState.Step && pSig == pv.LastSignState.Signature && pSB == pv.LastSignState.SignBytes
